@@ -24,6 +24,7 @@ package main
 import (
 	"context"
 	"fmt"
+	"os"
 	"strings"
 	"sync"
 	"time"
@@ -85,6 +86,9 @@ type scenCall struct {
 func scenOutcome(err error) string {
 	if err == nil {
 		return "OK"
+	}
+	if e, ok := err.(interface{ ScenOutcome() string }); ok {
+		return e.ScenOutcome() // e.g. an NFSv4 status (nfs.go)
 	}
 	return status.Code(err).String()
 }
@@ -236,6 +240,9 @@ var scenBlamed = map[string]string{}
 // demonstrated is nil when a recorded history is being replayed.
 func reportScenario(m *scenMon, title string, res *hx.Result, checkerBad map[string]string, demonstrated map[string]bool) {
 	hist := m.history()
+	if os.Getenv("LOCKLEAK_DEBUG") != "" {
+		fmt.Fprintln(os.Stderr, strings.Join(hist, "\n"))
+	}
 	res.Count(m.prefix + ":" + m.scenario)
 	res.TracesVsImpl++
 	res.History(hist, m.nonOK || m.failed())
@@ -263,11 +270,11 @@ func reportScenario(m *scenMon, title string, res *hx.Result, checkerBad map[str
 	}
 }
 
-// replayScenarios re-runs the scenario lines ("sched <name>" / "idle <name>")
+// replayScenarios re-runs the scenario lines ("sched <name>" / "idle <name>" / "nfs <name>")
 // of a recorded history. It reports false if the history is not of that kind.
 func replayScenarios(history []string, res *hx.Result) bool {
 	first := strings.Fields(history[0])
-	if len(first) < 2 || (first[0] != "sched" && first[0] != "idle") {
+	if len(first) < 2 || (first[0] != "sched" && first[0] != "idle" && first[0] != "nfs") {
 		return false
 	}
 	for _, line := range history {
@@ -287,6 +294,11 @@ func replayScenarios(history []string, res *hx.Result) bool {
 			title = "IdleInvoker"
 			if body, ok := idleScenarioByName(f[1]); ok {
 				m = runScenario("idle", "IdleInvoker", f[1], res, body)
+			}
+		case "nfs":
+			title = "NFSv4"
+			if body, ok := nfsScenarioByName(f[1]); ok {
+				m = runScenario("nfs", "NFSv4 server", f[1], res, body)
 			}
 		}
 		if m == nil {
